@@ -28,6 +28,8 @@ def run_kani_unit(u, repo, bdir, tier):
     shutil.rmtree(sc, ignore_errors=True)
     try:
         subprocess.run(["rsync", "-a", "--exclude", "target", "--exclude", ".git", repo.rstrip("/") + "/", sc + "/"], check=True)
+        from vlib.driver import freshen
+        freshen(sc)   # never reuse artifacts of another scratch copy (see driver.freshen)
         splice_lines = {}
         for sp in u["splice"]:
             dst = os.path.join(sc, sp["file"])
